@@ -35,13 +35,20 @@ def run(ctx, ck):
     ck.rule('R-SIB.weight', 'factor 2 for grounded pulses: same predicate for source and load')
     ck.rule('R-PAIR.grounded-pulse', 'grounded ends become pulses with a z-mirrored second half')
 
-    for q in INTEGRATORS:
-        f = m.func(q)
+    from .C10 import find_integrator
+    for q0 in INTEGRATORS:
+        cands = find_integrator(ctx, q0)
+        ck.ob('R-EXH.image-loop', q0 + '|loop', len(cands) == 1, m.func(q0).loc(),
+              'image loop found in %s' % [g_.qual for g_ in cands] if cands else
+              'no loop over self.image_iter() in %s or the helpers it calls' % q0)
+        if len(cands) != 1:
+            continue
+        f = cands[0]
+        q = f.qual
         fl = ctx.flow(f)
         ls = [l for l in loops_in(f.node) if isinstance(l, ast.For) and norm(l.iter) == 'self.image_iter()']
-        ck.ob('R-EXH.image-loop', q + '|loop', len(ls) == 1, f.loc(ls[0] if ls else None),
-              '%d loops over self.image_iter()' % len(ls))
         if len(ls) != 1:
+            ck.ob('R-EXH.image-loop', q + '|single-loop', False, f.loc(), '%d image loops' % len(ls))
             continue
         l = ls[0]
         kv = l.target.id if isinstance(l.target, ast.Name) else None
